@@ -380,6 +380,19 @@ func registerStd(e *Engine, simple func(string, func(*Run, []Value) Value)) {
 	redirect("time.After", "AfterModel")
 	redirect("time.NewTimer", "NewTimerModel")
 	redirect(rtPkg+".Quiesce", "QuiesceModel")
+	// rt.SchedPoint: a voluntary yield (the goroutine is "blocked but ready", so
+	// switching away is a wake-up-order decision, not a preemption); the order in
+	// which tags are passed is recorded for the native replay.
+	in[rtPkg+".SchedPoint"] = func(r *Run, g *Goroutine, fv *FuncV, a []Value, retTo func(Value)) (Value, bool) {
+		tag := a[0].(*StrV).s
+		g.blocked = &blockInfo{what: "SchedPoint " + tag, yield: true, ready: func() bool { return true }, resume: func() {
+			r.schedTrace = append(r.schedTrace, tag)
+			if retTo != nil {
+				retTo(nil)
+			}
+		}}
+		return deferredResult{}, true
+	}
 	in[rtPkg+".QuiesceFor"] = func(r *Run, g *Goroutine, fv *FuncV, a []Value, retTo func(Value)) (Value, bool) {
 		r.invoke(g, &FuncV{fn: r.eng.pkgs[rtPkg].Func("QuiesceModel")}, nil, retTo)
 		return deferredResult{}, true
